@@ -148,6 +148,11 @@ class SyncTasks(Tasks):
         _LOGGER.info("Stopping gateway")
         self.transport.disconnect()
         self._stop_event.set()
+        poll_thread = self._poll_thread
+        if poll_thread is not None and poll_thread is not threading.current_thread():
+            # The poll thread may be handling a message right now. Let it
+            # finish, the state it changes has to be part of the final save.
+            poll_thread.join()
         if not self.persistence:
             return
         if self._cancel_save is not None:
